@@ -152,7 +152,7 @@ func buildCorpus(env *Env, cfg *spec.DiskCfg) []corpusItem {
 	if cfg.Corpus == "full" {
 		geos = []geo{{9, 7, 1}, {9, 7, 3}, {1, 1, 1}, {1, 13, 1}, {13, 1, 1}, {15, 17, 1}, {16, 16, 1}, {17, 8, 3}}
 	} else {
-		geos = append(geos, geo{8, 9, 3})
+		geos = append(geos, geo{8, 9, 3}, geo{15, 17, 1}, geo{1, 5, 1})
 	}
 	mk := func(g geo, ba, bs int) (spec.Info, []byte) {
 		in := spec.Info{W: g.w, H: g.h, SPP: g.spp, BA: ba, BS: bs, HB: bs - 1, PI: "MONOCHROME2"}
@@ -538,13 +538,13 @@ func planFor(cfg *spec.DiskCfg) plan {
 	full := cfg.Corpus == "full"
 	switch {
 	case cfg.Prop == "C09" && !full:
-		return plan{railSamples: domainMaxSamples, pokeVals: midVals(), pokeValsHT: fewVals[:6], nEntries: 1, nEntriesHT: 1, maxHT: 1, truncStride: 1}
+		return plan{railSamples: domainMaxSamples, pokeVals: allVals(), pokeValsHT: fewVals[:8], nEntries: 1, nEntriesHT: 1, maxHT: 1, truncStride: 1}
 	case cfg.Prop == "C09":
-		return plan{railSamples: domainMaxSamples, pokeVals: allVals(), pokeValsHT: fewVals, nEntries: 1, nEntriesHT: 1, maxHT: 4, truncStride: 1, richGeos: 1}
+		return plan{railSamples: domainMaxSamples, pokeVals: allVals(), pokeValsHT: fewVals, nEntries: 2, nEntriesHT: 1, maxHT: 6, truncStride: 1, richGeos: 8}
 	case !full:
-		return plan{railSamples: 1 << 16, pokeVals: midVals(), pokeValsHT: fewVals[:8], nEntries: 2, nEntriesHT: 2, maxHT: 1, truncStride: 1}
+		return plan{railSamples: 1 << 16, pokeVals: allVals(), pokeValsHT: fewVals, nEntries: 3, nEntriesHT: 2, maxHT: 2, truncStride: 1}
 	}
-	return plan{railSamples: domainMaxSamples, pokeVals: allVals(), pokeValsHT: fewVals, nEntries: 2, nEntriesHT: 2, maxHT: 64, truncStride: 1, richGeos: 2}
+	return plan{railSamples: domainMaxSamples, pokeVals: allVals(), pokeValsHT: fewVals, nEntries: 4, nEntriesHT: 2, maxHT: 64, truncStride: 1, richGeos: 8}
 }
 
 // one runs a single case. build() produces the bytes lazily.
